@@ -132,6 +132,16 @@ PROPS = {
         "trusted_base": SEQ_TRUST,
         "assumptions": [],
     },
+    "C14": {
+        "streams": [seq_stream("serde", "C14")],
+        "trusted_base": SEQ_TRUST + ["serde data-model level only: JSON text, escaping and UTF-8 handling are serde_json's (exercised, not modelled)"],
+        "assumptions": [],
+    },
+    "C15": {
+        "streams": [seq_stream("docs", "C15")],
+        "trusted_base": SEQ_TRUST + ["serde visitor semantics of HashMap<String,K> (last value wins) and NonZero range checks, as modelled"],
+        "assumptions": [],
+    },
     "C11": {
         "streams": [stream_keys],
         "trusted_base": ["rustc's layout of Option<NonZero*> (size_of check is harness-only)",
